@@ -114,12 +114,25 @@ Definition withdraw (k : consts) (s : pstate) (who : nat) (a : Z) : outcome (pst
   let l' := setn (lp s) who (getn (lp s) who - a) in
   Ok (set_bal (set_lp s (supply s - a) l') (bal0 s - f0) (bal1 s - f1), mkPay 0 f0 f1 0 0 0 0 0).
 
+(* queries::query_simulation: reserves net of pending protocol fees, then compute_swap *)
+Definition simulate (s : pstate) (dir : bool) (x : Z) : outcome swapc :=
+  do r0 <- csub (bal0 s) (pf0 s);
+  do r1 <- csub (bal1 s) (pf1 s);
+  compute_swap_cp (if dir then r1 else r0) (if dir then r0 else r1) x (pfees s).
+
 Definition swap (k : consts) (s : pstate) (who : nat) (dir : bool) (x : Z) (belief max_spread : option Z)
   (to : option nat) : outcome (pstate * payout) :=
   if negb (en_s s) then Err E_DISABLED else
-  (* pools net of pending protocol fees; the offer has already arrived and is subtracted again *)
-  do r0 <- csub (bal0 s) (pf0 s);
-  do r1 <- csub (bal1 s) (pf1 s);
+  (* the offer has arrived before the contract runs (native funds with the message, cw20 by Send); the bank /
+     token rejects a balance beyond 128 bits *)
+  let b0 := if dir then bal0 s else bal0 s + x in
+  let b1 := if dir then bal1 s + x else bal1 s in
+  do _ <- ensure (fits128 b0 && fits128 b1) E_OTHER;
+  (* commands::swap: each pool = balance - pending protocol fee, and the offer pool additionally - offer *)
+  do q0 <- csub b0 (pf0 s);
+  do r0 <- (if dir then Ok q0 else csub q0 x);
+  do q1 <- csub b1 (pf1 s);
+  do r1 <- (if dir then csub q1 x else Ok q1);
   let op_ := if dir then r1 else r0 in
   let ask := if dir then r0 else r1 in
   do c <- compute_swap_cp op_ ask x (pfees s);
@@ -131,7 +144,6 @@ Definition swap (k : consts) (s : pstate) (who : nat) (dir : bool) (x : Z) (beli
   do _ <- must (fits128 ((if dir then bu0 s else bu1 s) + s_burnfee c));
   do _ <- must (fits128 ((if dir then pf0 s else pf1 s) + s_protfee c));
   do _ <- must (fits128 ((if dir then at0 s else at1 s) + s_protfee c));
-  do _ <- must (fits128 ((if dir then bal1 s else bal0 s) + x));
   let s' :=
     if dir then
       mkP (cw0 s) (cw1 s) (bal0 s - out) (bal1 s + x) (pf0 s + s_protfee c) (pf1 s) (at0 s + s_protfee c) (at1 s)
